@@ -27,9 +27,9 @@ def main(tier):
               'exp(x) > 0 (viscosity)')
     chk.assume('single-potential identities are proved on each function\'s main path (inside its range check); outside it the function returns None',
                'density monotonicity, positivity beyond the dilute-gas factor, cross-boundary tolerances: bounded grids only',
-               'tsat(sat(t)) == t is carried by: both functions lie on the one implicit saturation curve of the standard (proved), sat maps the interval into tsat\'s domain (proved up to 373.9459, known finding above), and the bounded dense round trip; the branch-uniqueness lemmas are not discharged')
+               'tsat(sat(t)) == t on [0.01, 373.9459] is a chain of discharged lemmas over the reals: sat = pstar x0^4 with x0 > 0 (L1); both functions on the one saturation curve (L2); theta is the root tsat\'s first formula selects (L3 + generic G0, G1, G3) with a non-vanishing denominator; tk is the root its second formula selects (L4 + G2); the real tsat body is exactly those two root formulas. Above 373.9459 sat leaves tsat\'s domain (known finding).')
     chk.explanation = ('clause -> evidence: power chains == powers and never read before written (PROVED, 10 tables); d,u / p,u derive from one potential '
                        '(PROVED exactly for cowat, supst, super from the returned pair); sat and tsat on the one saturation curve (PROVED, nlsat); sat(t) within tsat\'s domain '
-                       '(PROVED on [0.01, 373.9459]; KNOWN FINDING on the last 1e-4 K: sat exceeds pcritical); b23 forms inverse within 1e-6 K (PROVED); region classifier piecewise contract '
+                       '(PROVED on [0.01, 373.9459]; KNOWN FINDING on the last 1e-4 K: sat exceeds pcritical); tsat(sat(t)) == t over the reals on that interval (PROVED as a lemma chain); b23 forms inverse within 1e-6 K (PROVED); region classifier piecewise contract '
                        '(PROVED with sat uninterpreted); viscosity sign reduces to a univariate polynomial sign (PROVED); monotone density, tolerances across boundaries, exact round trip: BOUNDED grids.')
     return chk.finish()
